@@ -82,9 +82,11 @@ def request(info, r, fq):
     out["background"] = 0.125
     pd = [p.name for p in P.call_parameters if p.polydisperse and p.type not in ("orientation", "magnetic")]
     cutoff = 0.0
-    if r in ("pd", "pdc", "mode", "pd2", "mag") and pd:
+    if r in ("pd", "pdn", "arr", "pdc", "mode", "pd2", "mag") and pd:
         out[pd[0] + "_pd"] = 0.125
         out[pd[0] + "_pd_n"] = 10
+    if r == "pdn" and pd:
+        out[pd[0] + "_pd_nsigma"] = 1.5      # the same request as "pd" except for the number of sigmas
     if r == "pdc":
         cutoff = 1e-2          # the same request as "pd" except for the cutoff
     if r == "pd2" and len(pd) > 1:
@@ -149,6 +151,30 @@ def sv_instance(name):
         cls = sv_instance.cache[name] = _make_standard_model(name)
     return cls()
 sv_instance.cache = {}
+
+
+ARR_W = [12.0, 31.0, 45.0, 22.0, 7.0]      # counts, not fractions
+
+
+def sv_array(inst):
+    """Request "arr" on a SasView-style object: the first dispersible size gets an array distribution whose
+    points and (unnormalised) weights the caller supplies as float64 arrays.  Returns True if the caller's arrays
+    were changed."""
+    from sasmodels import weights as wmod
+    info = inst._model_info
+    pd = [p.name for p in info.parameters.call_parameters if p.polydisperse and p.type not in ("orientation", "magnetic")
+          and p.name in inst.params]
+    if not pd:
+        return False
+    c = float(inst.params[pd[0]])
+    vals = np.array([c * f for f in (0.8, 0.9, 1.0, 1.1, 1.2)], dtype="d")
+    wts = np.array(ARR_W, dtype="d")
+    v0, w0 = vals.copy(), wts.copy()
+    disp = wmod.ArrayDispersion()
+    disp.set_weights(vals, wts)
+    inst.set_dispersion(pd[0], disp)
+    inst._verif_arrays = (vals, wts, v0, w0)
+    return not (same(vals, v0) and same(wts, w0))
 
 
 def sv_apply(inst, pars, cutoff):
@@ -285,7 +311,8 @@ def do_op(st, e):
         inst = st.wrap[w][0]
         pars, cutoff = request(inst._model_info, e["r"], False)
         sv_apply(inst, pars, cutoff)
-        return "", [], False
+        changed = sv_array(inst) if e["r"] == "arr" else False
+        return "", [], changed
     if op == "eval":
         w = e["w"]
         if w not in st.wrap:
@@ -303,7 +330,9 @@ def do_op(st, e):
             st.held.append((e.get("n", -1), res, val))
         except Exception as exc:
             val = ["raised", type(exc).__name__]
-        return key, val, not same(before, arg)
+        arrs = getattr(inst, "_verif_arrays", None)
+        arr_changed = arrs is not None and not (same(arrs[0], arrs[2]) and same(arrs[1], arrs[3]))
+        return key, val, (not same(before, arg)) or arr_changed
     if op == "clone":
         w, w2 = e["w"], e["w2"]
         if w not in st.wrap:
